@@ -158,11 +158,11 @@ def stream_ladder(ctx):
     of = ctx.of
     bk, bkt, fw = mods(ctx)
     st = Stream('ladder-images', 'bravyi_kitaev and bravyi_kitaev_tree of every single ladder operator a_j, a_j^dagger '
-                'and bravyi_kitaev of every Majorana operator, for every j < n, every n <= N (N = 20 quick, 48 '
+                'and bravyi_kitaev of every Majorana operator, for every j < n, every n <= N (N = 24 quick, 48 '
                 'thorough); Model compared exactly; Spec oracle on all 2^n occupation masks for n <= 9; '
                 'distinct = (variant, n, operator)')
     b = Batch(ctx, st)
-    N = budget(ctx.tier, 20, 48)
+    N = budget(ctx.tier, 24, 48)
     if ctx.drift:
         N = max(N, 28)
     for n in range(1, N + 1):
@@ -206,12 +206,12 @@ def stream_ladder(ctx):
 def stream_srl(ctx):
     bk, bkt, fw = mods(ctx)
     st = Stream('seeley-richard-love', '_qubit_operator_creation(*_seeley_richard_love(i, j, c, n)) for ALL i, j < n, '
-                'all n <= N (N = 14 quick, 30 thorough) with a complex dyadic coefficient; Model compared exactly (the '
+                'all n <= N (N = 16 quick, 30 thorough) with a complex dyadic coefficient; Model compared exactly (the '
                 'Model reports which of the cases 0-10 fired: histogram in the distribution; case 11 = no branch); Spec '
                 'oracle (n <= 8, and n <= 11/12 for the rare odd-odd cases 7-10): the result acts like c a_i^dagger a_j under the encoding; distinct = (n,i,j,c)')
     b = Batch(ctx, st)
     rng = rng_for(ctx.seed, 'c05-srl')
-    N = budget(ctx.tier, 14, 30)
+    N = budget(ctx.tier, 16, 30)
     NO = budget(ctx.tier, 11, 12)   # oracle bound for the rare odd-odd cases 7-10
     if ctx.drift:
         N = max(N, 18)
@@ -267,7 +267,7 @@ def stream_random(ctx):
                 'n_qubits below the operator size must raise ValueError; distinct = (operator, n_qubits)')
     b = Batch(ctx, st)
     rng = rng_for(ctx.seed, 'c05-random')
-    n_ops = budget(ctx.tier, 90, 2500)
+    n_ops = budget(ctx.tier, 160, 2500)
     if ctx.drift:
         n_ops = max(n_ops, 300)
     prev = None
@@ -352,7 +352,7 @@ def stream_interaction(ctx):
                 'distinct = (tensor, n_qubits)')
     b = Batch(ctx, st)
     rng = rng_for(ctx.seed, 'c05-iop')
-    n_iop = budget(ctx.tier, 60, 900)
+    n_iop = budget(ctx.tier, 100, 900)
     if ctx.drift:
         n_iop = max(n_iop, 150)
     for k in range(n_iop):
@@ -395,7 +395,7 @@ def stream_interaction(ctx):
     # only shows for N >= 5); the Spec operator is written out from the non-zero entries only (cheap oracle)
     rng = rng_for(ctx.seed, 'c05-quartic')
     sizes = [4, 5, 5, 6, 5, 6] + ([9, 10] if ctx.tier == 'thorough' else [])
-    for k in range(budget(ctx.tier, 45, 500)):
+    for k in range(budget(ctx.tier, 72, 500)):
         N = sizes[k % len(sizes)]
         cplx = rng.random() < 0.7
         one = numpy.zeros((N, N), dtype=complex)
@@ -454,8 +454,6 @@ def stream_interaction(ctx):
     return st
 
 
-def run(ctx):
-    return [stream_sets(ctx), stream_ladder(ctx), stream_srl(ctx), stream_random(ctx), stream_interaction(ctx)]
 
 
 # ---------------------------------------------------------------- replay of a recorded failing input
@@ -497,6 +495,293 @@ def replay(ctx, payload):
             return ctx.driver.one(req) is True
         else:
             return None
-    except ERRS:
+    except Exception:
         return False
     return bool(ctx.driver.one(req)['eq'])
+
+
+# ---------------------------------------------------------------- hardening: State, Types, Bands, Asymmetry
+
+def stream_hardening(ctx):
+    import copy
+    from c04 import (soft, twice, mutate_operator, herm_tensors, cast, ARRAY_KINDS, SCALARS, band_val, arrays_equal,
+                     sparse_spec_op, rand_coeff as rc)
+    of = ctx.of
+    bk, bkt, fw = mods(ctx)
+    BK = of.transforms.bravyi_kitaev
+    BKT = of.transforms.bravyi_kitaev_tree
+    st = Stream('hardening', '(S) every path is called twice around an in-place modification of its first result (operators, '
+                'index sets, SRL lists, tree set lists), arguments are snapshotted before / after (including the tensors '
+                'inside InteractionOperators), operators / tensors edited in place are re-transformed and compared with a '
+                'freshly built equal object; (T) tensors as float64 / complex128 / complex64 / float32 / int64 / int32 / '
+                'Fortran-ordered arrays, SRL coefficients as Python int / float / complex / bool and numpy scalars, numpy '
+                'scalars in .terms (a type this tree rejects is excluded and counted, never an alarm); (B) dyadic entries '
+                'of magnitude 2e-6 .. 9e-5 next to O(1) ones in InteractionOperators (one-body, coulomb, number-excitation, '
+                'quartic) and FermionOperators, n_qubits 9 .. 20 and > 256, indices >= 257; (A) complex constants, purely '
+                'imaginary entries, non-Hermitian tensors (Model comparison only), both operand orders.  Compared exactly '
+                'with the Model and, where admissible, with the Spec oracle; distinct = distinct (check, input)')
+    b = Batch(ctx, st)
+    rng = rng_for(ctx.seed, 'c05-hardening')
+    reps = budget(ctx.tier, 1, 4) * (2 if ctx.drift else 1)
+    qenc = lambda Q: enc_op('qubit', Q.terms)   # noqa: E731
+
+    # ---- (T) SRL coefficients of every scalar type; (S) SRL lists, index sets, tree sets
+    for rep in range(reps):
+        for tag, c in SCALARS:
+            n = rng.choice([5, 6, 7, 8])
+            i, j = rng.randrange(n), rng.randrange(n)
+            case = {'fn': '_seeley_richard_love', 'i': i, 'j': j, 'n_qubits': n, 'coef': to_gq(c), 'coefficient_type': tag}
+            st.case(case)
+
+            def run():
+                ops, coefs = bk._seeley_richard_love(i, j, c, n)
+                return bk._qubit_operator_creation(ops, coefs)
+            ok, Q = soft(st, 'srl:' + tag, run)
+            if ok:
+                st.count('type-accepted:srl:' + tag)
+                jQ = qenc(Q)
+                b.add('_seeley_richard_love[%s]' % tag, case, {'op': jQ, 'n_ops': 0},
+                      {'op': 'c05.srl', 'i': i, 'j': j, 'coef': to_gq(c), 'n': n},
+                      oracle('bk', 'fermion', n, ['one_body_term', i, j, to_gq(c)], jQ),
+                      cmp=lambda st_, what, case_, impl, mo: None if canon_op_json(impl['op']) == canon_op_json(mo['op'])
+                      else st_.disagree(what + ': terms differ', case_, impl, mo))
+            A = of.FermionOperator()
+            A.terms[((2, 1), (0, 0))] = c
+            A.terms[((1, 1),)] = 0.5
+            jA = enc_op('fermion', A.terms)
+            for variant, fn, mop in (('bk', BK, 'c05.fermion'), ('tree', BKT, 'c05.tree')):
+                case = {'fn': variant, 'n_qubits': 5, 'fermion': jA, 'coefficient_type': tag}
+                st.case(case)
+                ok, Q = soft(st, variant + '-terms:' + tag, lambda: fn(A, 5))
+                if ok:
+                    st.count('type-accepted:%s-terms:%s' % (variant, tag))
+                    b.add('%s(.terms holds %s)' % (variant, tag), case, qenc(Q), {'op': mop, 'n': 5, 'A': jA},
+                          oracle(variant, 'fermion', 5, ['op', jA], qenc(Q)))
+        # (S) plain-Python results: sets and lists
+        n = rng.choice([6, 7, 11, 13])
+        j = rng.randrange(n)
+        case = {'fn': 'index sets', 'n': n, 'index': j, 'check': 'state'}
+        st.case(case)
+        for name, f in (('_update_set', lambda: bk._update_set(j, n)), ('_occupation_set', lambda: bk._occupation_set(j)),
+                        ('_parity_set', lambda: bk._parity_set(j))):
+            ok, s1 = call(st, name, case, f)
+            if not ok:
+                continue
+            first = sorted(s1)
+            s1.add(999)
+            s1.discard(first[0] if first else 999)
+            ok, s2 = call(st, name, case, f)
+            st.count('state:called-twice-around-mutation')
+            if ok and (sorted(s2) != first or s2 is s1):
+                st.violate(name + ': the second call differs after the first result was modified in place', case,
+                           {'first': first, 'second': sorted(s2)})
+        i2 = rng.randrange(n)
+        ok, r1 = call(st, '_seeley_richard_love', case, lambda: bk._seeley_richard_love(i2, j, 0.5 - 1j, n))
+        if ok:
+            first = copy.deepcopy(r1)
+            r1[0].append(((0, 'X'),))
+            r1[1].append(7.0)
+            if r1[1]:
+                r1[1][0] = 123.0
+            ok, r2 = call(st, '_seeley_richard_love', case, lambda: bk._seeley_richard_love(i2, j, 0.5 - 1j, n))
+            st.count('state:called-twice-around-mutation')
+            if ok and (r2[0] != first[0] or r2[1] != first[1]):
+                st.violate('_seeley_richard_love: the second call differs after the first result was modified', case, {})
+        ok, tree = call(st, 'FenwickTree', case, lambda: fw.FenwickTree(n))
+        if ok:
+            for name, f in (('get_update_set', lambda: tree.get_update_set(j)),
+                            ('get_remainder_set', lambda: tree.get_remainder_set(j)),
+                            ('get_parity_set', lambda: tree.get_parity_set(j))):
+                ok, l1 = call(st, name, case, f)
+                if not ok:
+                    continue
+                first = [x.index for x in l1]
+                l1.append(tree.get_node(0))
+                if len(l1) > 1:
+                    del l1[0]
+                ok, l2 = call(st, name, case, f)
+                st.count('state:called-twice-around-mutation')
+                if ok and [x.index for x in l2] != first:
+                    st.violate('FenwickTree.%s: the second call differs after the first result was modified' % name, case,
+                               {'first': first, 'second': [x.index for x in l2]})
+            # the children list is the tree's own storage: only check that repeated queries agree
+            c1 = [x.index for x in tree.get_children_set(j)]
+            c2 = [x.index for x in tree.get_children_set(j)]
+            if c1 != c2:
+                st.violate('FenwickTree.get_children_set: repeated queries differ', case, {})
+    b.flush()
+
+    # ---- (S) operator paths
+    for rep in range(3 * reps):
+        A = rand_fermion_op(rng, of, rng.randint(2, 6), 3, 4)
+        B = rand_fermion_op(rng, of, rng.randint(2, 6), 2, 3)
+        jA = enc_op('fermion', A.terms)
+        snap = copy.deepcopy(A.terms)
+        n = max(modes_of(jA), modes_of(enc_op('fermion', B.terms))) + rng.choice([0, 1, 2])
+        for variant, fn in (('bk', BK), ('tree', BKT)):
+            case = {'fn': variant, 'n_qubits': n, 'fermion': jA, 'check': 'state'}
+            st.case(case)
+            twice(st, variant + '(FermionOperator)', case, lambda: fn(A, n), qenc, mutate_operator)
+            if A.terms != snap:
+                st.violate(variant + ' modified its FermionOperator argument', case, {})
+        A2 = copy.deepcopy(A)
+        A2 += B
+        A2 *= 2
+        fresh = of.FermionOperator()
+        for t, c in A2.terms.items():
+            fresh += of.FermionOperator(t, c)
+        for variant, fn in (('bk', BK), ('tree', BKT)):
+            ok1, Qa = call(st, variant + '(edited operator)', {'fn': variant}, lambda: fn(A2, n))
+            ok2, Qf = call(st, variant + '(fresh operator)', {'fn': variant}, lambda: fn(fresh, n))
+            st.count('state:edited-in-place-then-requeried')
+            if ok1 and ok2 and canon_nz(qenc(Qa)) != canon_nz(qenc(Qf)):
+                st.violate(variant + ' of an operator edited in place differs from a freshly built equal operator',
+                           {'fermion': enc_op('fermion', A2.terms), 'n_qubits': n}, {})
+        for X, Y in ((A, B), (B, A)):
+            if len(X.terms) * len(Y.terms) <= 9:
+                ok1, l = call(st, 'bk(X*Y)', {'fn': 'bk'}, lambda: BK(X * Y, n))
+                ok2, r = call(st, 'bk(X)*bk(Y)', {'fn': 'bk'}, lambda: BK(X, n) * BK(Y, n))
+                st.count('asymmetry:both-operand-orders')
+                if ok1 and ok2 and canon_nz(qenc(l)) != canon_nz(qenc(r)):
+                    st.violate('bravyi_kitaev(X*Y) != bravyi_kitaev(X)*bravyi_kitaev(Y)',
+                               {'X': enc_op('fermion', X.terms), 'Y': enc_op('fermion', Y.terms), 'n_qubits': n}, {})
+        M = rand_majorana_op(rng, of, rng.randint(2, 10), 3, 4)
+        jM = enc_op('majorana', M.terms)
+        nm = (modes_of(jM) + 1) // 2 + rng.choice([0, 1])
+        case = {'fn': 'bk', 'n_qubits': nm, 'majorana': jM, 'check': 'state'}
+        st.case(case)
+        twice(st, 'bravyi_kitaev(MajoranaOperator)', case, lambda: BK(M, nm), qenc, mutate_operator)
+        if enc_op('majorana', M.terms) != jM:
+            st.violate('bravyi_kitaev modified its MajoranaOperator argument', case, {})
+
+    # ---- (T)(A)(S) InteractionOperator: array types, complex constant, non-Hermitian (Model only), in-place edits
+    for rep in range(reps):
+        for kind in ARRAY_KINDS:
+            N = rng.choice([2, 3, 3, 4])
+            real = not kind.endswith('complex128') and not kind.endswith('complex64')
+            integer = kind.startswith('int')
+            one, two = herm_tensors(rng, N, not real, rng.choice([0.3, 1.0]), integer)
+            const = rng.choice([0.0, 1.5, 0.5 - 0.25j, 2j])
+            c1, c2 = cast(one, kind), cast(two, kind)
+            s1, s2 = c1.copy(), c2.copy()
+            nq = N + rng.choice([0, 1, 2])
+            ok, iop = soft(st, 'InteractionOperator:' + kind, lambda: of.InteractionOperator(const, c1, c2))
+            if not ok:
+                continue
+            j1, j2, jc = flat(iop.one_body_tensor), flat(iop.two_body_tensor), to_gq(const)
+            case = {'fn': 'bravyi_kitaev', 'n_qubits': nq, 'array_type': kind,
+                    'interaction_operator': {'N': N, 'constant': jc, 'one': j1, 'two': j2}}
+            st.case(case)
+            ok, Q = soft(st, 'bk(InteractionOperator):' + kind, lambda: BK(iop, nq))
+            if not ok:
+                continue
+            st.count('type-accepted:InteractionOperator:' + kind)
+            b.add('bravyi_kitaev(InteractionOperator[%s])' % kind, case, qenc(Q),
+                  {'op': 'c05.iop', 'N': N, 'n': nq, 'constant': jc, 'one': j1, 'two': j2},
+                  oracle('bk', 'fermion', nq, ['op', sparse_spec_op(const, s1, s2)], qenc(Q)))
+            if not (arrays_equal(iop.one_body_tensor, s1) and arrays_equal(iop.two_body_tensor, s2)
+                    and arrays_equal(c1, s1) and arrays_equal(c2, s2)) or iop.constant != const:
+                st.violate('bravyi_kitaev modified its InteractionOperator argument', case, {})
+            twice(st, 'bravyi_kitaev(InteractionOperator)', case, lambda: BK(iop, nq), qenc, mutate_operator)
+            if N >= 2 and not integer:
+                v = 0.75 if real else (0.75 - 0.5j)
+                iop.one_body_tensor[0, 1] = v
+                iop.one_body_tensor[1, 0] = numpy.conj(v)
+                iop.two_body_tensor[0, 1, 1, 0] = 1.25
+                fresh_iop = of.InteractionOperator(const, iop.one_body_tensor.copy(), iop.two_body_tensor.copy())
+                ok1, Qa = call(st, 'bk(edited InteractionOperator)', case, lambda: BK(iop, nq))
+                ok2, Qf = call(st, 'bk(fresh InteractionOperator)', case, lambda: BK(fresh_iop, nq))
+                st.count('state:edited-in-place-then-requeried')
+                if ok1 and ok2 and canon_op_json(qenc(Qa)) != canon_op_json(qenc(Qf)):
+                    st.violate('bravyi_kitaev of an InteractionOperator edited in place differs from a fresh one', case, {})
+        N = rng.choice([2, 3])
+        one = numpy.array([[complex(rng.randint(-4, 4) / 2, rng.randint(-4, 4) / 4) for _ in range(N)] for _ in range(N)])
+        two = numpy.zeros((N,) * 4, dtype=complex)
+        for idx in itertools.product(range(N), repeat=4):
+            if rng.random() < 0.4:
+                two[idx] = complex(rng.randint(-4, 4) / 2, rng.randint(-4, 4) / 4)
+        iop = of.InteractionOperator(0.5j, one, two)
+        case = {'fn': 'bravyi_kitaev', 'n_qubits': N + 1, 'check': 'non-Hermitian, Model only',
+                'interaction_operator': {'N': N, 'constant': to_gq(0.5j), 'one': flat(one), 'two': flat(two)}}
+        st.case(case)
+        st.count('asymmetry:non-hermitian-tensor')
+        ok, Q = call(st, 'bravyi_kitaev(non-Hermitian InteractionOperator)', case, lambda: BK(iop, N + 1))
+        if ok:
+            b.add('bravyi_kitaev(non-Hermitian InteractionOperator)', case, qenc(Q),
+                  {'op': 'c05.iop', 'N': N, 'n': N + 1, 'constant': to_gq(0.5j), 'one': flat(one), 'two': flat(two)})
+    b.flush()
+
+    # ---- (B) small entries next to O(1) ones; n_qubits 9..20 and > 256
+    from c04 import FORCED_BAND, band_tensors
+    for rep in range(len(FORCED_BAND) * reps):
+        forced = FORCED_BAND[rep % len(FORCED_BAND)]
+        N = rng.choice([4, 4, 5, 5, 6])
+        cplx = rng.random() < 0.6
+        one, two = band_tensors(rng, N, cplx, forced, st)
+        const = rng.choice([0.0, 1.5])
+        iop = of.InteractionOperator(const, one, two)
+        nq = N + rng.choice([0, 1, 2])
+        A = sparse_spec_op(const, one, two)
+        case = {'fn': 'bravyi_kitaev', 'n_qubits': nq, 'interaction_operator_sparse': {'N': N, 'terms': A},
+                'check': 'band 2e-6..9e-5 next to O(1)'}
+        st.case(case)
+        ok, Q = call(st, 'bravyi_kitaev(InteractionOperator with small entries)', case, lambda: BK(iop, nq))
+        if ok:
+            jQ = qenc(Q)
+            b.add('bravyi_kitaev(InteractionOperator with small entries)', case, jQ,
+                  {'op': 'c05.iop', 'N': N, 'n': nq, 'constant': to_gq(const), 'one': flat(one), 'two': flat(two)},
+                  oracle('bk', 'fermion', nq, ['op', A], jQ))
+            ok, QF = call(st, 'bk(get_fermion_operator(iop))', case,
+                          lambda: BK(of.transforms.get_fermion_operator(iop), nq))
+            if ok and canon_nz(jQ) != canon_nz(qenc(QF)):
+                st.violate('InteractionOperator path differs from the FermionOperator path (small entries)', case, {})
+        F = of.FermionOperator()
+        nm = rng.randint(2, 6)
+        for _ in range(3):
+            t = tuple((rng.randrange(nm), rng.randint(0, 1)) for _ in range(rng.randint(1, 3)))
+            F += of.FermionOperator(t, band_val(rng, True) if rng.random() < 0.6 else rc(rng))
+        jF = enc_op('fermion', F.terms)
+        nqf = max(modes_of(jF), 1) + rng.choice([0, 1])
+        for variant, fn, mop in (('bk', BK, 'c05.fermion'), ('tree', BKT, 'c05.tree')):
+            case = {'fn': variant, 'n_qubits': nqf, 'fermion': jF, 'check': 'band'}
+            st.case(case)
+            ok, Q = call(st, variant + '(FermionOperator with small coefficients)', case, lambda: fn(F, nqf))
+            if ok:
+                b.add(variant + '(FermionOperator with small coefficients)', case, qenc(Q), {'op': mop, 'n': nqf, 'A': jF},
+                      oracle(variant, 'fermion', nqf, ['op', jF], qenc(Q)))
+    for rep in range(reps):
+        for nq in (rng.randint(9, 20), 300):
+            lo = 0 if nq <= 20 else 256
+            F = of.FermionOperator()
+            for _ in range(2):
+                t = tuple((rng.randrange(lo, nq), rng.randint(0, 1)) for _ in range(rng.randint(1, 2)))
+                F += of.FermionOperator(t, rc(rng))
+            jF = enc_op('fermion', F.terms)
+            for variant, fn, mop in (('bk', BK, 'c05.fermion'), ('tree', BKT, 'c05.tree')):
+                case = {'fn': variant, 'n_qubits': nq, 'fermion': jF, 'check': 'n_qubits 9..20 / > 256'}
+                st.case(case)
+                st.count('size:n_qubits=%s' % ('9..20' if nq <= 20 else '300'))
+                ok, Q = call(st, variant + '(large register)', case, lambda: fn(F, nq))
+                if ok:
+                    b.add(variant + '(large register)', case, qenc(Q), {'op': mop, 'n': nq, 'A': jF})
+            i, j = rng.randrange(lo, nq), rng.randrange(lo, nq)
+            c = rc(rng, 'complex')
+            case = {'fn': '_seeley_richard_love', 'i': i, 'j': j, 'n_qubits': nq, 'coef': to_gq(c)}
+            st.case(case)
+
+            def run():
+                ops, coefs = bk._seeley_richard_love(i, j, c, nq)
+                return bk._qubit_operator_creation(ops, coefs)
+            ok, Q = call(st, '_seeley_richard_love(large register)', case, run)
+            if ok:
+                b.add('_seeley_richard_love(large register)', case, {'op': qenc(Q), 'n_ops': 0},
+                      {'op': 'c05.srl', 'i': i, 'j': j, 'coef': to_gq(c), 'n': nq},
+                      cmp=lambda st_, what, case_, impl, mo: None if canon_op_json(impl['op']) == canon_op_json(mo['op'])
+                      else st_.disagree(what + ': terms differ', case_, impl, mo))
+    b.flush()
+    return st
+
+
+def run(ctx):
+    return [stream_sets(ctx), stream_ladder(ctx), stream_srl(ctx), stream_random(ctx), stream_interaction(ctx),
+            stream_hardening(ctx)]
